@@ -36,7 +36,7 @@ pub fn image(kind: usize, with_mask: bool, payload: usize, id: u64) -> m::Image 
 
 pub fn cloud(proto: Vec<m::Rec>, n: usize, id: u64) -> CloudSpec {
     let points = cat::points_for(&proto, n, id as usize);
-    CloudSpec { meta: m::CloudMeta { guid: Some(format!("pc-{id}")), ..Default::default() }, proto, points, cap: None, abandon: false, rejects: Vec::new() }
+    CloudSpec { meta: m::CloudMeta { guid: Some(format!("pc-{id}")), ..Default::default() }, proto, points, cap: None, abandon: false, rejects: Vec::new(), clear_limits: (false, false) }
 }
 
 /// Number of ops in the standard alphabet.
